@@ -476,6 +476,8 @@ pub(crate) async fn run_actor_lifecycle<T: Actor>(
     // `recv` on a closed channel returns `None` once no permit is outstanding. If that is
     // not yet the case, the receiver is handed to a small drain task that drops any late
     // envelope (failing its `ask`) and ends when the last permit or sender is gone.
+    #[cfg(rsactor_verif)]
+    crate::verif::failpoint("lifecycle:before_close");
     terminate_receiver.close();
     receiver.close();
     let drained = {
@@ -525,6 +527,9 @@ async fn run_actor_lifecycle_inner<T: Actor>(
 
     debug!("Actor {actor_id} runtime starting - entering main processing loop.");
 
+    #[cfg(rsactor_verif)]
+    crate::verif::failpoint("lifecycle:after_on_start");
+
     let actor_weak = ActorRef::downgrade(&actor_ref);
     drop(actor_ref); // Drop the strong reference to allow graceful shutdown detection
 
@@ -536,6 +541,9 @@ async fn run_actor_lifecycle_inner<T: Actor>(
     // 2. Incoming messages from the mailbox
     // 3. Actor's on_run lifecycle method execution
     loop {
+        #[cfg(rsactor_verif)]
+        crate::verif::failpoint("lifecycle:loop_top");
+
         #[cfg(feature = "tracing")]
         let on_run_span = tracing::debug_span!("actor_on_run");
         #[cfg(not(feature = "tracing"))]
